@@ -1,5 +1,6 @@
 import St4sd.Model.Ini
 import St4sd.Model.IniNames
+import St4sd.Model.IniFloat
 /-!
 Witnesses for C19 (hand-written copies of the table rows as they are in the unrepaired code, so that
 this file checks whatever the state of /repo):
@@ -65,5 +66,42 @@ theorem one_digit_stage_index_breaks_at_ten :
     stageIndex (stageSection 10) = some 10 := by decide
 
 end Names
+
+/-! A printer with a fixed precision (`'%.2f' % value`, the format of the auto-generated default weights)
+instead of `str(value)` looks the same on weights such as 0.01 / 0.04 / 0.95 and is not a round trip on the
+float fields that have more digits. -/
+section Numbers
+open St4sd.IniFloat St4sd.Str
+
+def w0005 : Lit := ⟨false, ['0'], some ['0', '0', '5'], none⟩
+def w0125 : Lit := ⟨false, ['0'], some ['1', '2', '5'], none⟩
+def w075 : Lit := ⟨false, ['0'], some ['7', '5'], none⟩
+def w004 : Lit := ⟨false, ['0'], some ['0', '4'], none⟩
+
+/-- `str(0.005)` is read back as 0.005; with two fixed fraction digits the file says 0.00 (digits cut off) or
+0.01 (rounded) and the loaded weight is another number -/
+theorem fixed_precision_printer_does_not_roundtrip :
+    canonical w0005 = true ∧ printWeight w0005 = "0.005".toList ∧ parseWeight (printWeight w0005) = some w0005 ∧
+    printFixed2 w0005 = "0.00".toList ∧ parseWeight (printFixed2 w0005) ≠ some w0005 ∧
+    printFixed2Round w0005 = "0.01".toList ∧ parseWeight (printFixed2Round w0005) ≠ some w0005 := by decide
+
+/-- the same for 0.125 (0.12 / 0.13), while a weight with two decimals survives both printers up to its literal's
+value (0.04 -> 0.04) -/
+theorem fixed_precision_printer_0125 :
+    canonical w0125 = true ∧ parseWeight (printWeight w0125) = some w0125 ∧
+    printFixed2 w0125 = "0.12".toList ∧ parseWeight (printFixed2 w0125) ≠ some w0125 ∧
+    printFixed2Round w0125 = "0.13".toList ∧ parseWeight (printFixed2Round w0125) ≠ some w0125 ∧
+    parseWeight (printFixed2 w004) = some w004 ∧ parseWeight (printFixed2Round w004) = some w004 := by decide
+
+/-- thousandths of an exponent-free literal -/
+def thousandths (w : Lit) : Nat := (digitsToNat? (w.int ++ ((w.frac.getD []) ++ ['0', '0', '0']).take 3)).getD 0
+
+/-- the weights 0.125 / 0.125 / 0.75 add up to one; what a two-digit printer leaves of them does not
+(0.12 + 0.12 + 0.75 = 0.99), so FlowIR would replace all of them by equal weights -/
+theorem fixed_precision_breaks_the_sum :
+    ([w0125, w0125, w075].map thousandths).sum = 1000 ∧
+    ([w0125, w0125, w075].map fun w => thousandths (fixed2 w)).sum = 990 := by decide
+
+end Numbers
 
 end St4sd.C19.Witness
